@@ -143,6 +143,16 @@ def _error_kwargs(rt: Built, label: Tuple[Any, ...], avail: Tuple[str, ...] = ()
     raise ValueError(mode)
 
 
+def raised_types(rt: Built) -> Tuple[type, ...]:
+    """The exception classes a violated contract of this program raises, per the configured error form."""
+    mode = rt.error_mode
+    if mode == "default":
+        return (AssertionError,)  # ViolationError
+    if mode == "class":
+        return tuple(cls for cls in rt.errors.values() if isinstance(cls, type)) or (Tag,)
+    return (Tag,)
+
+
 def identify(rt: Built, exc: BaseException) -> Optional[Tuple[Any, ...]]:
     """Which contract does the raised exception belong to (label), per the configured error form."""
     mode = rt.error_mode
